@@ -12,6 +12,7 @@ import (
 	"strings"
 
 	pipeline "github.com/buildkite/go-pipeline"
+	"github.com/buildkite/go-pipeline/ordered"
 	"github.com/buildkite/interpolate"
 	"gopkg.in/yaml.v3"
 
@@ -299,6 +300,32 @@ func c04Str(r *core.Rand) string {
 	return gen.DefaultStr(r)
 }
 
+func c04LongPipeline(r *core.Rand) any {
+	safe := func() string {
+		return core.Pick(r, []string{"$FOO", "pre-${BAR}-post", "${UNSET:-dflt}", "$$A", "\\$FOO", "plain", "${A}${A}", "x $Mixed_1 y"})
+	}
+	n := 48 + r.Intn(23)
+	steps := make([]any, n)
+	for i := range steps {
+		st := ordered.NewMap[string, any](6)
+		st.Set("command", safe())
+		st.Set("key", fmt.Sprintf("k%d-", i)+safe())
+		st.Set("label", safe())
+		st.Set("env", ordered.MapFromItems(ordered.TupleSA{Key: fmt.Sprintf("E%d", i), Value: safe()}))
+		if r.Intn(3) == 0 {
+			st.Set("cache", ordered.MapFromItems(ordered.TupleSA{Key: "name", Value: safe()}, ordered.TupleSA{Key: "size", Value: safe()}))
+		}
+		if r.Intn(3) == 0 {
+			st.Set("matrix", []any{safe(), "v2"})
+		}
+		if r.Intn(4) == 0 {
+			st.Set("agents", ordered.MapFromItems(ordered.TupleSA{Key: "queue", Value: safe()}))
+		}
+		steps[i] = st
+	}
+	return ordered.MapFromItems(ordered.TupleSA{Key: "steps", Value: steps})
+}
+
 func c04Key(r *core.Rand) string {
 	if r.Intn(4) == 0 {
 		return core.Pick(r, []string{"$FOO", "k_$BAR", "$$A", "${UNSET:-kd}", "$A", "$X9", "FOO", "k_bar"})
@@ -354,6 +381,12 @@ func runC04(c *ctx) error {
 			src = c.only
 		} else {
 			doc := o.Pipeline()
+			if i%40 == 7 {
+				// a long pipeline (48-70 small command steps, every typed field carrying a reference that expands):
+				// size-triggered code paths must reach the same fields
+				doc = c04LongPipeline(rng)
+				c.res.Hist("doc.long-pipeline")
+			}
 			if m, ok := doc.(interface{ Delete(string) }); ok {
 				m.Delete("env") // the env block is C10's subject; C04 compares the rest of the pipeline
 			}
